@@ -1,1 +1,3 @@
+import Driver.Ops
+import Driver.Funcs
 import Driver.Main
